@@ -426,10 +426,10 @@ fn run(tier: Tier, shard: usize, nshards: usize, _seed: u64) -> Partial {
         out.merge(p);
     }
     if shard == 1 % nshards {
-        cache_roll(&mut out);
+        super::guard_dead_actor(&mut out, "cache-roll", json!({"part": "roll"}), |out| cache_roll(out));
     }
     if shard == 2 % nshards {
-        long_run(&mut out);
+        super::guard_dead_actor(&mut out, "periodic-refresh", json!({"part": "long"}), |out| long_run(out));
     }
     // (c) histories
     let d = depth(tier);
@@ -440,7 +440,7 @@ fn run(tier: Tier, shard: usize, nshards: usize, _seed: u64) -> Partial {
             continue;
         }
         let h: Vec<(usize, usize)> = (0..d).map(|i| alphabet[(c / alphabet.len().pow(i as u32)) % alphabet.len()]).collect();
-        history(&h, &mut out);
+        super::guard_dead_actor(&mut out, "stats-history", json!({"part": "c", "history": h.iter().map(|(o, t)| vec![*o, *t]).collect::<Vec<_>>()}), |out| history(&h, out));
     }
     // (c') a lookup nobody answers (candidates, no responder) looked up twice - a retry always
     // looks up again, the first lookup left no token - with one other step before, between or after
@@ -457,7 +457,7 @@ fn run(tier: Tier, shard: usize, nshards: usize, _seed: u64) -> Partial {
                         _ => vec![(o1, 3), (o2, 3), *x],
                     };
                     out.add("histories_with_an_unanswered_lookup", 1);
-                    history(&h, &mut out);
+                    super::guard_dead_actor(&mut out, "stats-history", json!({"part": "c", "history": h.iter().map(|(o, t)| vec![*o, *t]).collect::<Vec<_>>()}), |out| history(&h, out));
                 }
             }
         }
